@@ -86,16 +86,17 @@ def mulT (a b : Arr Idx) : Option (Arr Term) := bcast2 Prod.mk a b
 
 /-- `view::matmul` (`matmul_t`): shape by `shape_matmul` (the constructor unwraps it: mismatching operands are outside
     this model, see C15); element `d`: `index::matmul` gives the two slice lists, `apply_slice` takes the row of lhs and
-    the column of rhs (two 1-d views), `multiply` broadcasts them, `reduce_add(…, None)` folds everything.
-    `none` as an element = the out-of-range `at(…, -2)` with a 1-d operand. -/
+    the column of rhs (two 1-d views; a 1-d operand is taken whole), `multiply` broadcasts them, `reduce_add(…, None)`
+    folds everything.  `none` as an element = an out-of-range read of the result index (not reachable for an index
+    inside the result shape, `matmul_elem_eq_sum`). -/
 def matmulV1 (sa sb : Shape) : Option (Arr (Option (List Term))) :=
   match shapeMatmul sa sb with
   | none => none
   | some dst => some ⟨dst, fun d =>
-      match matmulSlices d sa sb dst, getNeg? sa 1, getNeg? sb 2 with
+      match matmulSlices d sa sb dst, getNeg? sa 1, (if sb.length = 1 then sb[0]? else getNeg? sb 2) with
       | some (lb, row, rb, col), some k, some k' =>
-        let l : Arr Idx := ⟨[k], fun i => lb ++ [row] ++ i⟩
-        let r : Arr Idx := ⟨[k'], fun i => rb ++ i ++ [col]⟩
+        let l : Arr Idx := ⟨[k], fun i => lb ++ row.toList ++ i⟩
+        let r : Arr Idx := ⟨[k'], fun i => rb ++ i ++ col.toList⟩
         (mulT l r).map (fun m => ((sumLast 1 m).get []))
       | _, _, _ => none⟩
 
